@@ -203,6 +203,40 @@ def x_lca(report):
         if "args.scaled = int(args.scaled)" not in ast.unparse(_func(ast.parse(fn_src), nm)):
             raise Unrecognised(nm, "no longer converts --scaled to int")
 
+    # ---- `lca index`: the two identifier normalisations (spreadsheet side / signature side), each from its own site
+    ci_src = read("src/sourmash/lca/command_index.py")
+    cit = ast.parse(ci_src)
+    CUTS = {'ident.split(".")[0]': "dotPrefix", 'ident.rsplit(".", 1)[0]': "dropLast",
+            "ident.split('.')[0]": "dotPrefix", "ident.rsplit('.', 1)[0]": "dropLast"}
+
+    def ident_norm(fn_name, cond_split, cond_keep):
+        """find `if <cond_split>: ident = ident.split(" ")[0]; if not <cond_keep>: ident = <cut>` in the function"""
+        fn = _func(cit, fn_name)
+        hits = []
+        for node in ast.walk(fn):
+            if isinstance(node, ast.If) and ast.unparse(node.test) == cond_split and not node.orelse:
+                body = [ast.unparse(x) for x in node.body]
+                if not any(b.startswith("ident = ") or "\n    ident = " in b for b in body):
+                    continue                                  # another use of the flag (a message), not a normalisation
+                if len(body) == 2 and body[0] == "ident = ident.split(' ')[0]" and body[1].startswith(f"if not {cond_keep}:\n"):
+                    inner = node.body[1]
+                    if len(inner.body) == 1 and not inner.orelse:
+                        stmt = ast.unparse(inner.body[0])
+                        if stmt.startswith("ident = ") and stmt[len("ident = "):] in CUTS:
+                            hits.append(CUTS[stmt[len("ident = "):]])
+                            continue
+                raise Unrecognised(fn_name, "identifier normalisation not one of the modelled shapes: " + " // ".join(body)[:200])
+        if len(hits) != 1:
+            raise Unrecognised(fn_name, f"expected exactly one identifier normalisation, found {len(hits)}")
+        return hits[0]
+
+    out["idxTaxVersionCut"] = ident_norm("load_taxonomy_assignments", "split_identifiers", "keep_identifier_versions")
+    out["idxSigVersionCut"] = ident_norm("index", "args.split_identifiers", "args.keep_identifier_versions")
+    idx_fn = ast.unparse(_func(cit, "index"))
+    if "if sig.name:\n                ident = sig.name\n            else:\n                ident = sig.filename" not in idx_fn \
+            or "lineage = assignments.get(ident)" not in idx_fn:
+        raise Unrecognised("command_index.index", "identifier source / lookup changed")
+
     # ---- twin implementations -----------------------------------------------------
     bt = _nodoc(_func(lu, "build_tree"))
     # the per-assignment loop body of build_tree == body of LineageTree.add_lineage after its isinstance prelude
@@ -301,6 +335,15 @@ def clsScaledInt : Bool := {_bool(out['clsScaledInt'])}
     invisible, signatures are downsampled); `save_to_sql` records the identifiers and `_build_index` uses them -/
 def sqlDownHonoured : Bool := {_bool(out['sqlDownHonoured'])}
 def sqlStoresIdents : Bool := {_bool(out['sqlStoresIdents'])}
+/-- how `lca index --split-identifiers` drops the version when `--keep-identifier-versions` is not given: on the
+    spreadsheet identifiers (`load_taxonomy_assignments`) and on the signature names (`index`), each read from
+    its own statement -/
+inductive VersionCut where
+  | dotPrefix      -- `ident.split(".")[0]`
+  | dropLast       -- `ident.rsplit(".", 1)[0]`
+deriving Repr, DecidableEq
+def idxTaxVersionCut : VersionCut := .{out['idxTaxVersionCut']}
+def idxSigVersionCut : VersionCut := .{out['idxSigVersionCut']}
 /-- `LineageTree.add_lineage` / `.find_lca` are statement-for-statement `build_tree` / `find_lca` -/
 def lineageTreeTwin : Bool := {_bool(out['lineageTreeTwin'])}
 """
